@@ -15,7 +15,7 @@ files = sorted(f for f in os.listdir(d) if f != "meta.json")
 meta = {
     "property": prop,
     "needs_to_manifest": needs,
-    "written_by": "fresh sub-agent given only the property text and its own scratch worktree of /repo (nothing from /verif); round 2 (two changes per property, the two most obvious ideas skipped)",
+    "written_by": "fresh sub-agent given only the property text and its own scratch worktree of /repo (nothing from /verif); " + os.environ.get("SEED_ROUND", "round 2 (two changes per property, the two most obvious ideas skipped)"),
     "confirmed_by": "tools/confirm_seed.sh in a fresh scratch copy of /repo HEAD (%s): demonstration passes without the change; with the change it fails; the unedited suites of all five modules pass with the change" % head,
     "files": files,
 }
